@@ -17,6 +17,13 @@
 //! an open C01 known finding are discarded; the baseline (full pipeline) must succeed, otherwise discard.
 //! Non-trivial: some rule set changed the plan text relative to the analyzed plan and executed. Distinct by
 //! case JSON (query, data, selected rule sets).
+//!
+//! Deviations from DESIGN.md: rows are compared with the full pipeline's rows (not additionally with `refsql`,
+//! that is C01); a panic while planning/executing a *partial* rule list (e.g. `LIMIT 0` reaching TopK's
+//! `assert!(k > 0)` when eliminate_limit is absent) counts as "not executable".
+//! Sensitivity probes: C01's probe B (push_down_filter below the null-supplying side of LEFT JOIN) is the first
+//! C03 probe of DESIGN.md and is caught by the same row comparison; no separate mutrun was possible in the
+//! available machine time.
 use crate::c01;
 use datafusion::optimizer::optimizer::{Optimizer, OptimizerRule};
 use proptest::prelude::*;
